@@ -93,8 +93,15 @@ def snapshot():
             if rel not in wanted:
                 os.remove(os.path.join(dirpath, fn))
                 changed += 1
-    with open(os.path.join(REPO, "Cargo.lock"), "rb") as f:
-        write_if_changed(os.path.join(SNAP, "Cargo.lock"), f.read())
+    # Cargo.lock is git-ignored in the repository: a fresh worktree has none. It only pins registry versions for the harness crates.
+    for cand in (os.path.join(REPO, "Cargo.lock"), "/repo/Cargo.lock"):
+        if os.path.exists(cand):
+            with open(cand, "rb") as f:
+                write_if_changed(os.path.join(SNAP, "Cargo.lock"), f.read())
+            break
+    else:
+        if not os.path.exists(os.path.join(SNAP, "Cargo.lock")):
+            raise Inconclusive("no Cargo.lock found under %s" % REPO)
     return changed
 
 
